@@ -6,7 +6,8 @@ Every Go operation that can panic (index, slice, `make` with a negative count, e
 explicit partial operation here that yields `Outcome.panic site`; Go's `error` returns are `Outcome.err`.
 Nothing is totalised with `getD`/`get!`: a model function is panic-free only if the checks that
 dominate the operation in the Go source are present in the model too (the models mirror the code
-WITH the repairs fixes/C11-*.diff; on the unrepaired tree the correspondence check disagrees).
+WITH the repairs fixes/C11-*.diff and the repairs other properties made to the same functions (named
+where they matter); on the unrepaired tree the correspondence check disagrees).
 
 Conventions: a byte string is `List UInt8`; Go `int` is 64-bit and modelled as `Int` (the decoders
 never get near 2^63: lengths are bounded by the input length, `atoi` by 13 decimal digits);
@@ -313,22 +314,32 @@ def arrayParser (P : Parsers) (sub : UInt8) : Option (Nat × (Bytes → Option I
   else if sub = 102 then some (4, P.parseFloat32)
   else none
 
-/-- the `B` branch of `sam.ParseAux` (with the repair of fixes/C11-3: `len(txt) < 2 ||` before `txt[1]`) -/
+/-- the `B` branch of `sam.ParseAux` (as repaired by /repo cef38a2):
+`if len(txt) == 0 || (len(txt) > 1 && txt[1] != ',')` is an error, a bare element type is the empty
+array (`nf` stays nil), otherwise `nf = bytes.Split(txt[2:], ",")`; then `switch txt[0]` -/
 def parseAuxArray (P : Parsers) (t0 t1 : UInt8) (txt : Bytes) : Outcome Bytes :=
-  if txt.length < 2 then err
+  if txt.length = 0 then err
   else do
-    let comma ← index "sam.ParseAux:txt[1]" txt 1
-    if comma ≠ 44 then err
+    let bad ←
+      if 1 < txt.length then do
+        let comma ← index "sam.ParseAux:txt[1]" txt 1
+        pure (decide (comma ≠ 44))
+      else pure false
+    if bad then err
     else
-      let body ← sliceFrom "sam.ParseAux:txt[2:]" txt 2
+      let nf ←
+        if 1 < txt.length then do
+          let body ← sliceFrom "sam.ParseAux:txt[2:]" txt 2
+          pure (splitOn 44 body)
+        else pure []
       let sub ← index "sam.ParseAux:txt[0]" txt 0
       let (size, p) ← ofOption (arrayParser P sub)
-      let vs ← ofOption (parseAll p (splitOn 44 body))
+      let vs ← ofOption (parseAll p nf)
       pure (newAuxArray t0 t1 sub size vs)
 
 /-- `sam.ParseAux` -/
 def parseAux (P : Parsers) (text : Bytes) : Outcome Bytes :=
-  if text.length < 6 then err
+  if text.length < 5 then err
   else do
     let c2 ← index "sam.ParseAux:text[2]" text 2
     let c4 ← index "sam.ParseAux:text[4]" text 4
